@@ -85,6 +85,13 @@ def run(ctx):
             rec, lin = sccs_and_linearity(shape)
             if recursive and not rec:
                 continue
+            if recursive and ctx.rng.random() < 0.3:
+                from .c03 import add_dead_rule
+                extra = {k_: shape[k_] for k_ in ('vweights', 'bweights') if k_ in shape}
+                shape = add_dead_rule(ctx.rng, shape)
+                shape.update(extra)
+                rec, lin = sccs_and_linearity(shape)
+                ctx.count('with-dead-rule')
             if 'vweights' in shape and recursive:
                 shape['vweights'] = {i: [min(x, 0.0) for x in w] for i, w in shape['vweights'].items()}
             done += 1
@@ -221,14 +228,29 @@ def one_grammar(ctx, shape, recursive, linear, modes):
         if 'error' in base:
             continue
         rtol = 1e-3 if dt == 'float32' else (1e-6 if recursive else 1e-9)
+        # the trigger of findings D8b/D8c: J_precompute_products multiplies in, at EVERY later prefix/suffix step, the domain size of
+        # an internal node that is no longer (or not yet) among the step's nodes: a rule with m >= 3 edges and an internal node that is
+        # isolated, or whose edges all lie among the first m-2 or among the last m-2 edges
+        def _early(r):
+            m = len(r['edges'])
+            if m < 3:
+                return False
+            for v in range(len(r['nodes'])):
+                if v in r['ext']:
+                    continue
+                idx = [i for i, (_, _, att) in enumerate(r['edges']) if v in att]
+                if not idx or max(idx) <= m - 3 or min(idx) >= 2:
+                    return True
+            return False
+        iso = ['jpp-internal-node-outside-some-step'] if any(_early(r) for r in shape['rules']) else []
         if len(rep['value']) != len(base['value']) or not all(close(a, b, rtol) for a, b in zip(rep['value'], base['value'])):
             ctx.fail(f'{name}: value depends on the options ({method}, j_precompute={jp}, {dt})', dict(case, config=cfg), rep['value'], base['value'],
-                     tags=['option-value', name, method, f'j_precompute={jp}', dt])
+                     tags=['option-value', name, method, f'j_precompute={jp}', dt] + iso)
         if rep.get('grads') is not None and base.get('grads') is not None:
             for ga, gb in zip(rep['grads'], base['grads']):
                 if (ga is None) != (gb is None) or (ga is not None and not all(close(a, b, 10 * rtol) for a, b in zip(ga, gb))):
                     ctx.fail(f'{name}: gradient depends on the options ({method}, j_precompute={jp}, {dt})', dict(case, config=cfg), ga, gb,
-                             tags=['option-grad', name, method, f'j_precompute={jp}', dt])
+                             tags=['option-grad', name, method, f'j_precompute={jp}', dt] + iso)
                     break
     # ---- semiring relations
     real = results[('real', 'fixed-point', False, 'float64')].get('value')
@@ -238,6 +260,21 @@ def one_grammar(ctx, shape, recursive, linear, modes):
         ctx.evaluations += 1
         if not all(close(l, math.log(r) if r > 0 else -math.inf, 1e-6) for l, r in zip(logv, real)):
             ctx.fail('the Log result is not the logarithm of the Real result', case, logv, real, tags=['log-vs-real'])
+    # ... and so are the gradients (scalar start): d log Z / d log w = (w / Z) dZ/dw, entry by entry
+    rg = results[('real', 'fixed-point', False, 'float64')].get('grads')
+    lg = results[('log', 'fixed-point', False, 'float64')].get('grads')
+    if real and logv and len(real) == 1 and rg is not None and lg is not None and real[0] > 0 and math.isfinite(real[0]):
+        ctx.evaluations += 1
+        for i, (gr, gl) in enumerate(zip(rg, lg)):
+            w = shape['weights'][i] if i in shape['weights'] else shape['weights'][str(i)]
+            if gr is None or gl is None:
+                if (gr is None) != (gl is None) and any(x != 0 for x in (gr or gl)):
+                    ctx.fail('a factor has a gradient in one of Real/Log and none in the other', dict(case, factor=i), gl, gr, tags=['log-vs-real-grad'])
+                continue
+            want = [wv * g / real[0] for wv, g in zip(w, gr)]
+            if not all(wv == 0 or close(a, b, 1e-5) for a, b, wv in zip(gl, want, w)):
+                ctx.fail('the Log-semiring gradient is not (w / Z) times the Real-semiring gradient', dict(case, factor=i), gl, want, tags=['log-vs-real-grad'])
+                break
     if real and boolv is not None:
         ctx.evaluations += 1
         if [bool(b) for b in boolv] != [r != 0 for r in real]:
